@@ -142,6 +142,7 @@ type Explorer struct {
 	uf               map[int]int
 	termVars         map[int][]*smt.Term
 	NoSlicing        bool
+	secretVars       map[string]*smt.Term
 	decimals         []decRecord
 	curFn            *ssa.Function
 	AllowTagsInFresh bool
@@ -204,6 +205,7 @@ func (e *Explorer) startPath(prefix []int) {
 	e.logs = nil
 	e.sinks = nil
 	e.secrets = nil
+	e.secretVars = map[string]*smt.Term{}
 	e.sched = nil
 	e.freshCat = nil
 	e.decimals = nil
